@@ -84,4 +84,6 @@ def run(ctx):
     # shared literal-pattern rule (hex digits in either case survive base conversion)
     from sa.rules.C02 import number_syntax
     number_syntax(ctx, repo)
+    from sa.rules import memo
+    memo.run_for(ctx, repo, 'C04')
     return report.finish(ctx, EXPLANATION)
